@@ -481,6 +481,25 @@ pub fn arb_srv_case() -> BoxedStrategy<SrvCase> {
         .boxed()
 }
 
+/// RTU-only sessions (C06 emission)
+pub fn arb_srv_case_rtu() -> BoxedStrategy<SrvCase> {
+    (arb_units(3), arb_decode(), any::<u64>())
+        .prop_flat_map(|(units, decode, select_seed)| {
+            let ids: Vec<u8> = units.iter().map(|u| u.0).collect();
+            arb_frames(Fr::Rtu, ids, WinHint::of(units.first().map(|u| &u.1)), 8, 10).prop_map(move |frames| SrvCase {
+                cfg: SrvConfig {
+                    framing: Fr::Rtu,
+                    units: units.clone(),
+                    auth: None,
+                    decode,
+                },
+                frames,
+                select_seed,
+            })
+        })
+        .boxed()
+}
+
 /// C17 cases: the unit dimension opened up
 pub fn arb_multidrop_case() -> BoxedStrategy<SrvCase> {
     (
@@ -533,6 +552,10 @@ pub fn arb_auth_case() -> BoxedStrategy<SrvCase> {
             )
         })
         .boxed()
+}
+
+pub fn arb_frames_pub(fr: Fr, units: Vec<u8>, hint: WinHint, unit_bias: u8, max: usize) -> BoxedStrategy<Vec<Frame>> {
+    arb_frames(fr, units, hint, unit_bias, max)
 }
 
 // ---------------------------------------------------------------------------------------------
